@@ -191,10 +191,36 @@ impl Exec {
             }
         }
         let pre = snapshot(&table, epoch);
-        let planes = Planes { aircrafts: table.clone() };
+        let mut planes = Planes::new();
+        planes.aircrafts = table.clone();
         LAST_PANIC_GLOBAL.lock().map(|mut g| *g = None).ok();
         let tb = Utc::now();
         let h = spawn_reader_thread(args.clone(), planes);
+        // a reader that never returns is data too ("fails to terminate"): wait with a deadline
+        let limit_ms: u64 = std::env::var("SQV_RUN_TIMEOUT_MS").ok().and_then(|v| v.parse().ok()).unwrap_or(30000)
+            + (lines.iter().map(|l| l.len() as u64).sum::<u64>() / 1000);
+        let t_start = std::time::Instant::now();
+        while !h.is_finished() && (t_start.elapsed().as_millis() as u64) < limit_ms {
+            std::thread::sleep(std::time::Duration::from_micros(if t_start.elapsed().as_millis() < 5 { 20 } else { 2000 }));
+        }
+        if !h.is_finished() {
+            // the thread cannot be killed and may hold the table lock: record the hang and stop this harness process
+            ev.insert("out".into(), json!(format!("hang: reader thread still running after {} ms", limit_ms)));
+            ev.insert("outk".into(), json!("hang"));
+            ev.insert("ok".into(), json!(false));
+            ev.insert("tb".into(), json!(ms(tb, epoch)));
+            ev.insert("ta".into(), json!(ms(Utc::now(), epoch)));
+            ev.insert("k0".into(), json!(pre.keys().collect::<Vec<_>>()));
+            ev.insert("k1".into(), json!(pre.keys().collect::<Vec<_>>()));
+            ev.insert("ch".into(), json!([]));
+            self.emit(ev)?;
+            let mut ab = Map::new();
+            ab.insert("e".into(), json!("abort"));
+            ab.insert("why".into(), json!("hang"));
+            self.emit(ab)?;
+            self.out.flush().map_err(|e| e.to_string())?;
+            std::process::exit(0);
+        }
         let r = h.join();
         let ta = Utc::now();
         let out = match r {
